@@ -92,6 +92,10 @@ func checkFreq(c freqCase) evid.Outcome {
 	if g != f {
 		return evid.Fail("Frequency %d Hz is encoded as %s (MHz) and decodes as %d Hz, expected %d Hz", c.Hz, b, int64(g), c.Hz)
 	}
+	// a payload struct is reused for the next message: the variable holds another value when it decodes
+	if used := backend.Frequency(868100000); json.Unmarshal(b, &used) != nil || used != f {
+		return evid.Fail("Frequency: %s decoded into a variable that held 868100000 gives %d, into a fresh one %d", b, int64(used), int64(g))
+	}
 	cls, nt := productClass(c.Hz, 1e6)
 	return evid.Outcome{NonTrivial: nt, Class: cls, Key: u64key(c.Hz)}
 }
@@ -173,6 +177,9 @@ func checkPerc(c percCase) evid.Outcome {
 	if g != p {
 		return evid.Fail("Percentage %d is encoded as %s (fraction) and decodes as %d, expected %d", c.P, b, int64(g), c.P)
 	}
+	if used := backend.Percentage(77); json.Unmarshal(b, &used) != nil || used != p {
+		return evid.Fail("Percentage: %s decoded into a variable that held 77 gives %d, into a fresh one %d", b, int64(used), int64(g))
+	}
 	cls, nt := productClass(c.P, 100)
 	if c.P < 0 {
 		cls = "negative/" + cls
@@ -216,6 +223,12 @@ func checkHex(c hexCase) evid.Outcome {
 	}
 	if !bytes.Equal(g, c.Bytes) {
 		return evid.Fail("HEXBytes %s is encoded as %s and decodes as %x", c.Bytes, b, []byte(g))
+	}
+	for _, prev := range [][]byte{{0xde, 0xad}, bytes.Repeat([]byte{0x5a}, 300)} {
+		used := backend.HEXBytes(append([]byte{}, prev...))
+		if err := json.Unmarshal(b, &used); err != nil || !bytes.Equal(used, c.Bytes) {
+			return evid.Fail("HEXBytes: %s decoded into a variable that held %d other bytes gives %x (err %v), into a fresh one %x", b, len(prev), []byte(used), err, []byte(g))
+		}
 	}
 	text := hex.EncodeToString(c.Bytes)
 	if strings.HasSuffix(c.Form, "upper") {
@@ -374,6 +387,21 @@ func checkTime(c timeCase) evid.Outcome {
 	}
 	if _, off := got.Zone(); off != c.Off*60 {
 		return evid.Fail("ISO8601Time %s decodes with zone offset %d s, expected %d s", c.text(), off, c.Off*60)
+	}
+	// a payload struct is reused for the next message: the variable holds another timestamp when it decodes - this
+	// one into a variable that held a fixed other instant, and the unset timestamp into a variable that held this one
+	used := backend.ISO8601Time(time.Date(2001, 2, 3, 4, 5, 6, 0, time.FixedZone("", 7*3600)))
+	if err := json.Unmarshal(b, &used); err != nil || !time.Time(used).Equal(got) {
+		return evid.Fail("ISO8601Time: %s decoded into a variable that held 2001-02-03T04:05:06+07:00 gives %s (err %v), into a fresh one %s", b, time.Time(used).Format(time.RFC3339Nano), err, got.Format(time.RFC3339Nano))
+	}
+	zb, err := json.Marshal(backend.ISO8601Time{})
+	if err != nil {
+		return evid.Fail("ISO8601Time: the zero value does not encode: %v", err)
+	}
+	var zf backend.ISO8601Time
+	zu := v
+	if e1, e2 := json.Unmarshal(zb, &zf), json.Unmarshal(zb, &zu); e1 != nil || e2 != nil || !time.Time(zu).Equal(time.Time(zf)) {
+		return evid.Fail("ISO8601Time: the encoding %s of the unset timestamp decodes into a fresh variable as %s (err %v) and into a variable that held %s as %s (err %v)", zb, time.Time(zf).Format(time.RFC3339Nano), e1, c.text(), time.Time(zu).Format(time.RFC3339Nano), e2)
 	}
 	cls := "utc"
 	if c.Off != 0 {
@@ -1218,7 +1246,7 @@ func TestProp(t *testing.T) {
 	_ = flag.Set("rapid.shrinktime", "6s")
 
 	evid.Exhaustive(r, t, "frequency-sweep",
-		"Frequency, enumerated: quick = every Hz in [0, 2 MHz], every multiple of 100 Hz below 200 MHz and in the LoRa bands 433-435, 470-510, 779-787, 863-870, 902-928, 2400-2483.5 MHz, every Hz in [2^32-2000, 2^32]; thorough = every Hz in [0, 20 MHz], every multiple of 100 Hz up to 2^32, every Hz of the listed bands, every Hz in [2^32-2000, 2^32]. Oracle: the JSON number times 10^6 is the value to within 0.5 Hz (MHz on the wire) and Unmarshal(Marshal(f)) == f. Non-trivial: the float product (f/10^6)*10^6 is not exactly f, so that the decoder has to round.",
+		"Frequency, enumerated: quick = every Hz in [0, 2 MHz], every multiple of 100 Hz below 200 MHz and in the LoRa bands 433-435, 470-510, 779-787, 863-870, 902-928, 2400-2483.5 MHz, every Hz in [2^32-2000, 2^32]; thorough = every Hz in [0, 20 MHz], every multiple of 100 Hz up to 2^32, every Hz of the listed bands, every Hz in [2^32-2000, 2^32]. Oracle: the JSON number times 10^6 is the value to within 0.5 Hz (MHz on the wire) and Unmarshal(Marshal(f)) == f, also into a variable that held another frequency. Non-trivial: the float product (f/10^6)*10^6 is not exactly f, so that the decoder has to round.",
 		false,
 		func(emit func(freqCase)) { freqSweep(r.Thorough(), emit) }, checkFreq)
 
@@ -1247,11 +1275,11 @@ func TestProp(t *testing.T) {
 		}, checkPerc)
 
 	evid.Rapid(r, t, "hexbytes",
-		"HEXBytes of 0..255 random bytes. Oracle: the encoding is a JSON string that an independent hexadecimal decoder turns into the bytes; Unmarshal(Marshal(b)) == b; one further input form per case (lower case, upper case, each with and without the 0x prefix the decoder strips) decodes to the bytes. Non-trivial: the hexadecimal form contains a letter (case matters).",
+		"HEXBytes of 0..255 random bytes. Oracle: the encoding is a JSON string that an independent hexadecimal decoder turns into the bytes; Unmarshal(Marshal(b)) == b; one further input form per case (lower case, upper case, each with and without the 0x prefix the decoder strips) decodes to the bytes; decoding into a variable that held 2 or 300 other bytes gives the same. Non-trivial: the hexadecimal form contains a letter (case matters).",
 		160000, 4000000, genHex, checkHex)
 
 	evid.Rapid(r, t, "iso8601",
-		"ISO8601Time built from civil fields: year 1..9999 (edge years 1/4 of the time), valid day of month, zone offset 0 / common / any whole minute within +-23:59, sub-second part 0 / edge / random. Oracle: own civil-date arithmetic (days-from-civil): the decoded value is the same instant to one second (time.Equal after truncation, and Unix seconds equal to the model's) with the same zone offset. Non-trivial: non-zero sub-second part or non-zero offset.",
+		"ISO8601Time built from civil fields: year 1..9999 (edge years 1/4 of the time), valid day of month, zone offset 0 / common / any whole minute within +-23:59, sub-second part 0 / edge / random. Oracle: own civil-date arithmetic (days-from-civil): the decoded value is the same instant to one second (time.Equal after truncation, and Unix seconds equal to the model's) with the same zone offset; decoding into a variable that held another timestamp gives the same, and the encoding of the unset timestamp decodes into a variable that held this one exactly as into a fresh one. Non-trivial: non-zero sub-second part or non-zero offset.",
 		240000, 6000000, genTime, checkTime)
 
 	evid.Rapid(r, t, "payload-structs",
@@ -1259,7 +1287,7 @@ func TestProp(t *testing.T) {
 		50000, 2000000, genStruct, checkStruct)
 
 	evid.Rapid(r, t, "client-exchange",
-		"the seven synchronous client calls (JoinReq, RejoinReq, PRStartReq, PRStopReq, XmitDataReq, ProfileReq, HomeNSReq) of backend.NewClient with the network replaced by an in-process http.RoundTripper: request and answer payloads filled reflectively from tapes of 0..700 bytes as in payload-structs, the answer's Result.Description a text of 0 / 1..600 / 2^k-400..2^k+200 (k = 9..16) / up to 300000 characters, a request byte string of up to 40000 bytes in 1/4 of the cases, TransactionID 0 or set; the answer body is served in reads of 1, 7, 100, 512, 1460, 4096 bytes or in one piece. Oracle: the call succeeds and returns field by field what a plain json.Unmarshal of the served body gives; the body the peer received decodes to the caller's payload with the configured SenderID/ReceiverID, the call's MessageType and the caller's TransactionID when set. Non-trivial: the body needs more than one read.",
+		"the seven synchronous client calls (JoinReq, RejoinReq, PRStartReq, PRStopReq, XmitDataReq, ProfileReq, HomeNSReq) of backend.NewClient with the network replaced by an in-process http.RoundTripper: request and answer payloads filled reflectively from tapes of 0..700 bytes as in payload-structs, the answer's Result.Description a text of 0 / 1..600 / 2^k-400..2^k+200 (k = 9..16) / up to 300000 characters, a request byte string of up to 40000 bytes in 1/4 of the cases, TransactionID 0 or set; the answer body is served in reads of 1, 7, 100, 512, 1460, 4096 bytes or in one piece. the answer's result code is Success (3/4) or a refusal (Deferred, MICFailed, UnknownDevEUI, ...). Oracle: with Success the call returns no error; with any result code it returns field by field what a plain json.Unmarshal of the served body gives; the body the peer received decodes to the caller's payload with the configured SenderID/ReceiverID, the call's MessageType and the caller's TransactionID when set. Non-trivial: the body needs more than one read.",
 		12000, 300000, genClient, checkClient)
 
 	evid.Rapid(r, t, "key-envelope",
